@@ -5,6 +5,11 @@
 #include "vf/oracle.hpp"
 #include "vf/families.hpp"
 #include "vf/runner.hpp"
+#include <Spectra/SymGEigsSolver.h>
+#include <Spectra/SymGEigsShiftSolver.h>
+#include <Spectra/MatOp/DenseSymMatProd.h>
+#include <Spectra/MatOp/DenseCholesky.h>
+#include <Spectra/MatOp/SymShiftInvert.h>
 
 #ifndef VF_REAL
 #define VF_REAL double
@@ -57,7 +62,7 @@ static ld sort_key(int rule, cld x)
     }
 }
 
-static void run_case(vf::Draw& d, vf::Case& c)
+static void krylov_case(vf::Draw& d, vf::Case& c)
 {
     int family = (int) d.range("family", 0, 5);
     vf::Problem<Real> P = vf::draw_problem<Real>(d, family, (Index) vf::options().geti("nmax", 24));
@@ -263,6 +268,220 @@ static void run_case(vf::Draw& d, vf::Case& c)
         }
         c.add_desc(hist.str());
     });
+}
+
+// ---------------------------------------------------------------------------------------------------------------------------------
+// Generalized symmetric solvers (library wrappers, dense): the same bookkeeping clauses; ordering is checked on the BACK-TRANSFORMED
+// values; pairing through the Rayleigh quotient of the iterated operator in the inner product of the mode:
+//   Cholesky / RegularInverse: x^T A x / x^T B x = lambda;  ShiftInvert: nu = x^T B (A - sigma B)^-1 B x, lambda = sigma + 1/nu;
+//   Buckling: nu = x^T K (K - sigma K_G)^-1 K x, lambda = sigma nu / (nu - 1);  Cayley: nu = x^T B (A - sigma B)^-1 (A + sigma B) x, lambda = sigma (nu + 1)/(nu - 1)
+template <typename Solver>
+static void geigs_drive(Solver& eigs, vf::Draw& d, vf::Case& c, int mode, Index n, Index nev, const vf::MatL& P /* inner product */, const vf::MatL& OP, ld sigma, ld opnorm, ld opfac)
+{
+    using vf::MatL;
+    VF_CHECK(eigs.info() == CompInfo::NotComputed, "info_before_compute", "info() = " << vf::info_name(eigs.info()) << " before any compute()");
+    VF_CHECK(eigs.eigenvalues().size() == 0 && eigs.eigenvectors().cols() == 0 && eigs.eigenvectors().rows() == n, "accessors_before_compute", "accessors not empty before compute()");
+    eigs.init();
+    int ncomp = (int) d.range("computes", 1, 2);
+    for (int k = 0; k < ncomp; k++)
+    {
+        int sel = vf::SYM_RULES[d.range("selection", 0, 4)];
+        int sort = vf::SYM_SORT_RULES[d.range("sorting", 0, 3)];
+        static const long MAXITS[6] = {0, 1, 2, 3, 5, 1000};
+        long maxit = MAXITS[d.range("maxit", 0, 5)];
+        ld tol = std::pow((ld) 10, -(ld) d.range("tol_exp", 2, 14));
+        long ret = (long) eigs.compute(vf::ALL_RULES[sel], (Index) maxit, (Real) tol, vf::ALL_RULES[sort]);
+        auto evals = eigs.eigenvalues();
+        auto evecs = eigs.eigenvectors();
+        VF_CHECK(ret == (long) evals.size() && ret == (long) evecs.cols() && evecs.rows() == n, "counts", "compute() returned " << ret << ", eigenvalues().size()=" << evals.size() << ", eigenvectors() is " << evecs.rows() << "x" << evecs.cols());
+        VF_CHECK(ret >= 0 && ret <= nev, "count_range", "compute() returned " << ret << " with nev=" << nev);
+        CompInfo info = eigs.info();
+        VF_CHECK((info == CompInfo::Successful) == (ret == nev) && (info == CompInfo::Successful || info == CompInfo::NotConverging), "status", "info()=" << vf::info_name(info) << " but " << ret << " of " << nev << " pairs returned");
+        for (Index m = 0; m <= nev + 1; m++)
+        {
+            auto part = eigs.eigenvectors(m);
+            Index want = std::min<Index>(m, ret);
+            VF_CHECK(part.cols() == want && part.rows() == n, "eigenvectors_m", "eigenvectors(" << m << ") is " << part.rows() << "x" << part.cols() << ", expected " << want << " columns");
+            if (want > 0)
+                VF_CHECK(vf::maxabs(vf::widen(part) - vf::widen(evecs.leftCols(want))) <= 8 * (ld) n * EPS * std::max((ld) 1, vf::maxabs(vf::widen(evecs))), "eigenvectors_m", "eigenvectors(" << m << ") is not the first " << want << " columns");
+        }
+        vf::VecL th = vf::widen_real(evals);
+        bool finite = vf::all_finite(th);
+        if (!finite)
+        {
+            c.cls("generalized/infinite_eigenvalue(singular K_G)");
+            continue;
+        }
+        for (Index i = 0; i + 1 < ret; i++)
+            VF_CHECK(sort_key(sort, cld(th[i], 0)) <= sort_key(sort, cld(th[i + 1], 0)) + 4 * EPS * (std::abs(th[i]) + std::abs(th[i + 1])), "ordering",
+                     "back-transformed values " << vf::num(th[i]) << ", " << vf::num(th[i + 1]) << " at positions " << i << "," << i + 1 << " are not in " << vf::ALL_RULE_NAMES[sort] << " order");
+        MatL X = vf::widen_real(evecs);
+        for (Index i = 0; i < ret; i++)
+        {
+            vf::VecL x = X.col(i);
+            ld xx = x.dot(P * x);
+            ld rq = x.dot(P * (OP * x)) / xx;
+            ld lam = th[i], nu;
+            if (mode <= 1)
+                nu = lam;
+            else if (mode == 2)
+                nu = 1 / (lam - sigma);
+            else if (mode == 3)
+                nu = lam / (lam - sigma);
+            else
+                nu = (lam + sigma) / (lam - sigma);
+            ld err = std::abs(rq - nu);
+            ld bound = CTOL * (ld) n * EPS * opfac * opnorm * (ld) (1 + maxit) + CTOL * EPS * std::abs(nu) * std::max((ld) 1, std::abs(nu) * (std::abs(lam) + std::abs(sigma)));
+            VF_CHECK(err <= bound, "pairing", "Rayleigh quotient of vector " << i << " through the iterated operator is " << vf::num(rq) << " but its eigenvalue " << vf::num(lam) << " corresponds to " << vf::num(nu) << " (|diff| " << vf::num(err) << " > " << vf::num(bound) << ")");
+            vf::report().stat("generalized pairing error/bound", (double) (err / bound));
+        }
+        if ((ret > 0 && ret < nev) || maxit <= 1)
+            c.nontrivial = true;
+        if (ret > 0 && ret < nev)
+            c.cls("partial_convergence");
+    }
+}
+
+static void geigs_case(vf::Draw& d, vf::Case& c)
+{
+    using vf::MatL;
+    typedef Eigen::Matrix<Real, Eigen::Dynamic, Eigen::Dynamic> Mat;
+    int mode = (int) d.range("gmode", 0, 4);
+    static const char* MN[5] = {"SymGEigsSolver<Cholesky>", "SymGEigsSolver<RegularInverse>", "SymGEigsShiftSolver<ShiftInvert>", "SymGEigsShiftSolver<Buckling>", "SymGEigsShiftSolver<Cayley>"};
+    vf::HermRecipe R = vf::make_herm<Real>(d, false, 3, (Index) vf::options().geti("nmax", 24), 3);
+    const Index n = R.n;
+    Index nev, ncv;
+    vf::draw_nev_ncv(d, n, false, nev, ncv);
+    // SPD matrix with condition <= 1e3
+    vf::Lcg g((uint64_t) d.range("B_seed", 0, 65535));
+    int ke = (int) d.range("B_log10_kappa", 0, 3);
+    vf::VecL ev(n);
+    for (Index i = 0; i < n; i++)
+        ev[i] = std::pow((ld) 10, -(ld) ke * (ld) i / (ld) std::max<Index>(n - 1, 1));
+    MatL Q = vf::random_orthogonal(n, g);
+    MatL Bl = Q * ev.asDiagonal() * Q.transpose();
+    Mat Bs = ((Bl + Bl.transpose()) / 2).cast<Real>();
+    MatL B = Bs.cast<ld>();
+    Mat As = vf::Narrow<Real>::mat(R.A);
+    MatL A = As.cast<ld>();
+    std::ostringstream os;
+    os << MN[mode] << "<" << vf::Sc<Real>::name() << "> class=" << R.name << " n=" << n << " scale=1e" << R.scale_exp << " nev=" << nev << " ncv=" << ncv << " kappa(B)=1e" << ke;
+    c.cls(MN[mode]);
+    if (vf::fro_scaled(R.A) == 0)
+    {
+        c.add_desc(os.str());
+        c.rejected = true;
+        return;
+    }
+    // sigma by construction away from the generalized eigenvalues
+    ld sigma = 0;
+    MatL OP, P = B;
+    ld opfac = std::pow((ld) 10, (ld) ke);
+    if (mode >= 2)
+    {
+        const MatL& Kp = (mode == 3) ? B : A;      // buckling: K = B (positive definite), K_G = A
+        const MatL& Km = (mode == 3) ? A : B;
+        Eigen::GeneralizedSelfAdjointEigenSolver<MatL> ges(mode == 3 ? MatL(A / R.scale) : MatL(A / R.scale), B, Eigen::EigenvaluesOnly);
+        vf::VecL mu = ges.eigenvalues() * R.scale;  // eigenvalues of (A, B); buckling eigenvalues of (B, A) are 1/mu
+        ld lo = mu[0], hi = mu[n - 1], spread = std::max(hi - lo, (std::abs(lo) + std::abs(hi)) * (ld) 1e-3);
+        ld s = d.flag("sigma_below") ? lo - spread / 5 : hi + spread / 5;
+        if (mode == 3)
+            s = 1 / (std::abs(s) > 0 ? s : spread);  // 1/sigma outside the spectrum of (K_G, K)
+        if (s == 0)
+            s = spread / 5;
+        sigma = (ld) (Real) s;
+        MatL M = Kp - sigma * Km;
+        Eigen::FullPivLU<MatL> lu(M);
+        if (!lu.isInvertible())
+        {
+            c.add_desc(os.str() + " singular shifted pencil");
+            c.rejected = true;
+            return;
+        }
+        MatL Mi = lu.inverse();
+        opfac = std::max(opfac, vf::fro_scaled(M) * vf::fro_scaled(Mi));
+        if (mode == 2)
+            OP = Mi * B;
+        else if (mode == 3)
+            OP = Mi * B;  // (K - sigma K_G)^-1 K
+        else
+            OP = Mi * (A + sigma * B);
+        os << " sigma=" << vf::num(sigma);
+    }
+    else
+        OP = B.inverse() * A;  // both Cholesky and RegularInverse iterate with an operator similar to B^-1 A; in the B inner product x^T B (B^-1 A) x = x^T A x
+    ld opnorm = vf::fro_scaled(OP);
+    c.add_desc(os.str());
+    try
+    {
+        if (mode == 0)
+        {
+            Spectra::DenseSymMatProd<Real> aop(As);
+            Spectra::DenseCholesky<Real> bop(Bs);
+            Spectra::SymGEigsSolver<Spectra::DenseSymMatProd<Real>, Spectra::DenseCholesky<Real>, Spectra::GEigsMode::Cholesky> eigs(aop, bop, nev, ncv);
+            geigs_drive(eigs, d, c, mode, n, nev, P, OP, sigma, opnorm, opfac);
+        }
+        else if (mode == 1)
+        {
+            struct LLTB
+            {
+                using Scalar = Real;
+                Mat Bm;
+                Eigen::LLT<Mat> llt;
+                explicit LLTB(const Mat& b) :
+                    Bm(b), llt(b) {}
+                Index rows() const { return Bm.rows(); }
+                Index cols() const { return Bm.cols(); }
+                void perform_op(const Real* x, Real* y) const { Eigen::Map<Eigen::Matrix<Real, Eigen::Dynamic, 1>>(y, Bm.rows()).noalias() = Bm * Eigen::Map<const Eigen::Matrix<Real, Eigen::Dynamic, 1>>(x, Bm.cols()); }
+                void solve(const Real* x, Real* y) const { Eigen::Map<Eigen::Matrix<Real, Eigen::Dynamic, 1>>(y, Bm.rows()) = llt.solve(Eigen::Map<const Eigen::Matrix<Real, Eigen::Dynamic, 1>>(x, Bm.cols())); }
+            };
+            Spectra::DenseSymMatProd<Real> aop(As);
+            LLTB bop(Bs);
+            Spectra::SymGEigsSolver<Spectra::DenseSymMatProd<Real>, LLTB, Spectra::GEigsMode::RegularInverse> eigs(aop, bop, nev, ncv);
+            geigs_drive(eigs, d, c, mode, n, nev, P, OP, sigma, opnorm, opfac);
+        }
+        else
+        {
+            typedef Spectra::SymShiftInvert<Real, Eigen::Dense, Eigen::Dense> OpT;
+            Spectra::DenseSymMatProd<Real> bop(Bs);
+            if (mode == 2)
+            {
+                OpT op(As, Bs);
+                Spectra::SymGEigsShiftSolver<OpT, Spectra::DenseSymMatProd<Real>, Spectra::GEigsMode::ShiftInvert> eigs(op, bop, nev, ncv, (Real) sigma);
+                geigs_drive(eigs, d, c, mode, n, nev, P, OP, sigma, opnorm, opfac);
+            }
+            else if (mode == 3)
+            {
+                OpT op(Bs, As);
+                Spectra::SymGEigsShiftSolver<OpT, Spectra::DenseSymMatProd<Real>, Spectra::GEigsMode::Buckling> eigs(op, bop, nev, ncv, (Real) sigma);
+                geigs_drive(eigs, d, c, mode, n, nev, P, OP, sigma, opnorm, opfac);
+            }
+            else
+            {
+                OpT op(As, Bs);
+                Spectra::SymGEigsShiftSolver<OpT, Spectra::DenseSymMatProd<Real>, Spectra::GEigsMode::Cayley> eigs(op, bop, nev, ncv, (Real) sigma);
+                geigs_drive(eigs, d, c, mode, n, nev, P, OP, sigma, opnorm, opfac);
+            }
+        }
+    }
+    catch (const std::invalid_argument& e)
+    {
+        c.rejected = true;
+        c.cls(std::string("invalid_argument: ") + e.what());
+    }
+    catch (const std::runtime_error& e)
+    {
+        c.rejected = true;
+        c.cls(std::string("runtime_error: ") + e.what());
+    }
+}
+
+static void run_case(vf::Draw& d, vf::Case& c)
+{
+    if (d.one_in("generalized", 4))
+        geigs_case(d, c);
+    else
+        krylov_case(d, c);
 }
 
 int main(int argc, char** argv)
